@@ -134,7 +134,10 @@ finding("C10-read-input-varptr-only-variables", ["C10", "C03"],
          "C03": [P([10, [["read", [["arr", "Q", [N(3)]]]], ["end"]]], [20, [["data", [["n", "7", 7]]]]]),
                  dict(P([10, [["input", None, [["svar", "ZQ"]], False], ["end"]]]), options={"default_str_storage": 80, "initialize_vars": True}, str_limit=80,
                       script={"INPUT$": ["0123456789012345678901234567890123456789"], "INPUT": []})]},
-        switch="rw_targets_also_top_level")
+        switch="rw_targets_also_top_level",
+        pinned_by="tests/coco_tests/b09/test_b09.py::TestB09::test_input, test_input_no_message, test_line_input, test_line_input_no_message, test_simple_read, test_varptr "
+                  "(a 14-line repair that lets visitors see READ / INPUT targets and VARPTR operands was tried in a scratch worktree: these six golden tests then fail "
+                  "because their expected text lacks the DIM lines of the arrays they read into)")
 finding("C10-joystick-state-declared-twice", ["C10", "C14"],
         "the JOYSTK prologue declares joy0y twice ('dim joy0x, joy0y, joy1x, joy0y: integer') and never declares joy1y; ecb_joystk is called with 2 arguments although it declares 6 parameters",
         {"C10": [C10CASE("10 ZN=JOYSTK(0)", [])],
